@@ -73,6 +73,9 @@ R.contract(
     prop=["C07", "C10"],
 )
 
+# the delivery position (first byte not yet handed to the application)
+R.contract("QuicStreamReceiver.starting_offset", returns="int", modifies=[], raises={}, ensures=["result == self._buffer_start"], use_invariant=False, prop=["C07"])
+
 R.field_types("QuicStreamFrame", data="bytes", fin="bool", offset="int")
 R.field_types("StreamDataReceived", data="bytes", end_stream="bool", stream_id="Optional[int]")
 
